@@ -615,6 +615,39 @@ def r11(ctx):
         ctx.ok('polygon row', 'padding is removed (or never added) before the vertices are built')
 
 
+COLUMN_PROBES = [('R0', 'a'), ('R1', 'b'), ('R2', 'c'), ('X0', 'x'), ('Y0', 'y'), ('ROTANG0', 'r'), ('X', '[x]'), ('R', '[a, b, c]')]
+
+
+def r12(ctx):
+    """column addressing on read: `<NAME><i>` is element i of the row's NAME cell, a bare NAME is the whole cell (polygon
+    vertices) — the reader's column accessor partially evaluated on a probe row."""
+    m = ctx.model
+    mod = next((mi for n, mi in m.modules.items() if n.endswith('io.fits.read')), None)
+    ctx.need(mod is not None, 'regions.io.fits.read', 'module not found')
+    cand = [f for f in mod.functions.values() if len(f.node.args.args) == 2 and any(
+        isinstance(n, ast.Attribute) and n.attr == 'isdigit' for n in ast.walk(f.node))]
+    ctx.need(len(cand) == 1, 'fits read', f'column accessor not identified ({[c.qualname for c in cand]})')
+    f = cand[0]
+    from ..vg import DictV, sym
+    row = DictV([{'R': Tup((sym('a'), sym('b'), sym('c')), 'list'), 'X': Tup((sym('x'),), 'list'),
+                  'Y': Tup((sym('y'),), 'list'), 'ROTANG': Tup((sym('r'),), 'list')}])
+    bad = []
+    for col, want in COLUMN_PROBES:
+        ev = Evaluator(m)
+        out = ev.run(f, [row, Const(col)], {})
+        got = [show(v, 80) for _, v in out.returns]
+        if len(got) != 1 or got[0] != want or out.raises:
+            bad.append((col, got, want))
+    construct = f.qualname.split(':')[1]
+    if bad:
+        col, got, want = bad[0]
+        ctx.bad(construct, 'column-addressing',
+                f'column {col!r} of a row with R=[a, b, c], X=[x], Y=[y], ROTANG=[r] is read as {got}; the FITS region convention '
+                f'(and the writer) make it {want} ({len(bad)} of {len(COLUMN_PROBES)} probes differ)', f.loc())
+    else:
+        ctx.ok(construct, f'{len(COLUMN_PROBES)} probes: NAME<i> is element i of the cell, NAME is the whole cell')
+
+
 RULES = [
     RuleDef('R1', 'SHAPE name pipeline x include (writer name known to reader; "!" iff excluded)', r1, 8),
     RuleDef('R2', 'semi-axis halving/doubling agreement x include', r2, 7),
@@ -629,4 +662,5 @@ RULES = [
     RuleDef('R9', 'column entries keep their own units (converted, never relabelled)', r9, 2),
     RuleDef('R10', 'table assembly: SHAPE strings untouched, columns = row values in row order', r10, 1),
     RuleDef('R11', 'column padding never becomes polygon vertices', r11, 1),
+    RuleDef('R12', 'column addressing on read (probe row)', r12, 1),
 ]
